@@ -33,7 +33,7 @@ func allowFromEnv() map[string]bool {
 	return m
 }
 
-var planPart = pbt.Part[planCase]{Name: "real-plan-structural", Quick: 1500, Thorough: 30000, Check: checkPlan,
+var planPart = pbt.Part[planCase]{Name: "real-plan-structural", Journal: true, Quick: 1500, Thorough: 30000, Check: checkPlan,
 	Gen: func(t *rapid.T) planCase {
 		l := fedgen.Gen(t, fedgen.Options{Allow: allowFromEnv()})
 		super, err := sim.LoadSuper(l.Super)
